@@ -9,6 +9,8 @@ Lemma facts_deadline : exists d, kp_rpc_deadline gen_kill_params = Some d /\ (0 
 Proof. eexists. split; [reflexivity|]. vm_compute. discriminate. Qed.
 Lemma facts_grace : (0 <= kp_grace gen_kill_params)%Z. Proof. vm_compute. discriminate. Qed.
 Lemma facts_keepalive : (0 <= kp_keepalive gen_kill_params)%Z. Proof. vm_compute. discriminate. Qed.
+(* the force kill is handed context.Background(): a runner that honours its context (container runtime, remote agent) carries it out *)
+Lemma facts_kill_ctx : kp_kill_ctx_fresh gen_kill_params = true. Proof. reflexivity. Qed.
 
 (* For every protocol and every way the plugin may behave (exits at once / after cleanup inside the
    grace period / ignores the request / frozen / already dead / failed handshake / never started):
@@ -25,7 +27,7 @@ Theorem C04_kill_terminates : forall pr b,
   (k_clean_exit r = true -> k_forced r = false) /\
   ((b = ExitsAtOnce \/ b = ExitsAfterDelay) -> k_forced r = false /\ k_clean_exit r = true) /\
   ((b = Ignores \/ b = Frozen \/ b = FailedHandshake) -> k_forced r = true).
-Proof. exact (kill_terminates gen_kill_params facts_deadline facts_grace facts_keepalive). Qed.
+Proof. exact (kill_terminates gen_kill_params facts_deadline facts_grace facts_keepalive facts_kill_ctx). Qed.
 Print Assumptions C04_kill_terminates.
 
 (* repeated Kill: everything after the first call finds no runner and does nothing *)
@@ -34,8 +36,15 @@ Proof. exact (kill_idempotent gen_kill_params). Qed.
 
 (* the defect of the pinned tree: a Shutdown request without a deadline *)
 Theorem C04_refuted_on_old_code : forall g ka,
-  k_returns (kill {| kp_grace := g; kp_rpc_deadline := None; kp_keepalive := ka |} KGRPC Frozen) = false.
+  k_returns (kill {| kp_grace := g; kp_rpc_deadline := None; kp_keepalive := ka; kp_kill_ctx_fresh := true |} KGRPC Frozen) = false.
 Proof. exact kill_unbounded_hangs. Qed.
+
+(* a force kill issued with the context of the grace period: the plugin that acknowledged the request and stays survives,
+   and Kill waits for ever *)
+Theorem C04_refuted_stale_kill_context : forall g d ka pr,
+  let r := kill {| kp_grace := g; kp_rpc_deadline := Some d; kp_keepalive := ka; kp_kill_ctx_fresh := false |} pr Ignores in
+  k_exited r = false /\ k_returns r = false.
+Proof. exact kill_stale_ctx_leaves_process. Qed.
 
 Example C04_nonvacuous :
   k_budget (kill gen_kill_params KGRPC Frozen) = 4%Z /\ k_forced (kill gen_kill_params KGRPC Frozen) = true /\
